@@ -1,8 +1,90 @@
-(* C15 - property theorems only.  Each is closed by [exact] of a lemma from
-   Proofs.v and followed by Print Assumptions. *)
+(* C15 - property theorems only.  Each is closed by [exact] of a lemma from the Proofs
+   files and followed by Print Assumptions; Examples pin the statements to concrete
+   inputs and show that the hypotheses are satisfiable. *)
 From Common Require Import Prelude.
-From C15 Require Import Model Proofs.
+From C15 Require Import Model Proofs ProofsCodec ProofsFixed.
 Local Open Scope Z_scope.
+
+(* ================================================================= round trip *)
+
+(* decode_encode: for a value v of the static type sh (raw bytes of sizeof(T) / string /
+   vector, nested, of strings / array wrapper) reading back its wire format returns v and
+   leaves exactly the bytes that follow it *)
+Theorem decode_encode : forall sh v r,
+  typed sh v = true -> len (encode v ++ r) < 2 ^ 64 -> decode sh (encode v ++ r) = Some (v, r).
+Proof. exact ProofsCodec.decode_encode. Qed.
+Print Assumptions decode_encode.
+
+(* seq_roundtrip: the same for a sequence of values read back in the same order; the cursor
+   ends exactly behind the bytes written *)
+Theorem seq_roundtrip : forall shs vs r,
+  Forall2 (fun sh v => typed sh v = true) shs vs -> len (encode_seq vs ++ r) < 2 ^ 64 ->
+  decode_seq shs (encode_seq vs ++ r) = Some (vs, r) /\
+  exists rd, get_seq shs (reader_of (encode_seq vs ++ r)) = ROk vs rd /\
+             r_buf rd = encode_seq vs ++ r /\ r_cur rd = len (encode_seq vs).
+Proof. exact ProofsCodec.seq_roundtrip. Qed.
+Print Assumptions seq_roundtrip.
+
+(* end_iff_consumed: after reading the first values vs1 of the stream of vs1 ++ vs2, end() is
+   true exactly when no value is left; the remaining values are then read up to the last byte *)
+Theorem end_iff_consumed : forall shs1 shs2 vs1 vs2,
+  Forall2 (fun sh v => typed sh v = true) shs1 vs1 ->
+  Forall2 (fun sh v => typed sh v = true) shs2 vs2 ->
+  len (encode_seq (vs1 ++ vs2)) < 2 ^ 64 ->
+  exists rd, get_seq shs1 (reader_of (encode_seq (vs1 ++ vs2))) = ROk vs1 rd /\
+             r_cur rd = len (encode_seq vs1) /\
+             (rd_end rd = true <-> vs2 = []) /\
+             get_seq shs2 rd = ROk vs2 {| r_buf := r_buf rd; r_cur := len (encode_seq (vs1 ++ vs2)) |}.
+Proof. exact ProofsCodec.end_iff_consumed. Qed.
+Print Assumptions end_iff_consumed.
+
+(* size_calculator: WriteSizeCalculator predicts the byte count *)
+Theorem size_calculator : forall vs,
+  wsc_put_seq vs = wrap (len (encode_seq vs)) /\
+  (len (encode_seq vs) < 2 ^ 64 -> wsc_put_seq vs = len (encode_seq vs)).
+Proof. exact ProofsCodec.size_calculator. Qed.
+Print Assumptions size_calculator.
+
+(* the growing BufferWriter holds exactly the wire format (resize + memcpy per chunk) *)
+Theorem writer_emits_encoding : forall vs,
+  len (encode_seq vs) < 2 ^ 64 -> bw_put_seq vs = Some (encode_seq vs).
+Proof. exact ProofsCodec.writer_emits_encoding. Qed.
+Print Assumptions writer_emits_encoding.
+
+(* the composition the property speaks about: write through a WriteStream, read back *)
+Theorem write_read_roundtrip : forall shs vs,
+  Forall2 (fun sh v => typed sh v = true) shs vs -> len (encode_seq vs) < 2 ^ 64 ->
+  exists bytes rd,
+    bw_put_seq vs = Some bytes /\ wsc_put_seq vs = len bytes /\
+    get_seq shs (reader_of bytes) = ROk vs rd /\ r_cur rd = len bytes /\ rd_end rd = true.
+Proof. exact ProofsCodec.write_read_roundtrip. Qed.
+Print Assumptions write_read_roundtrip.
+
+(* truncated_throws: for every strict prefix of the byte stream the same reading sequence
+   ends in a throw (never in an out-of-bounds access, never in a value) *)
+Theorem truncated_throws : forall shs vs p q,
+  Forall2 (fun sh v => typed sh v = true) shs vs ->
+  encode_seq vs = p ++ q -> q <> [] -> len p < 2 ^ 64 ->
+  get_seq shs (reader_of p) = RThrow /\ decode_seq shs p = None.
+Proof. exact ProofsCodec.truncated_throws. Qed.
+Print Assumptions truncated_throws.
+
+(* a string, a vector of strings (one empty), a nested vector, an array of three 2-byte
+   elements and a raw u32 *)
+Definition ex_shapes : list shape := [SStr; SVec SStr; SVec (SVec (SRaw 1)); SArr 2; SRaw 4].
+Definition ex_values : list value :=
+  [VStr [104; 105]%N; VVec [VStr []; VStr [97]%N];
+   VVec [VVec [VRaw [1]%N; VRaw [2]%N]; VVec []]; VArr 2 3 [1; 2; 3; 4; 5; 6]%N; VRaw [9; 8; 7; 6]%N].
+Example roundtrip_example :
+  forallb (fun p => typed (fst p) (snd p)) (combine ex_shapes ex_values) = true /\
+  len (encode_seq ex_values) = 79 /\ wsc_put_seq ex_values = 79 /\
+  bw_put_seq ex_values = Some (encode_seq ex_values) /\
+  decode_seq ex_shapes (encode_seq ex_values) = Some (ex_values, []) /\
+  decode_seq ex_shapes (firstn 78 (encode_seq ex_values)) = None /\
+  decode_seq ex_shapes (firstn 17 (encode_seq ex_values)) = None.
+Proof. vm_compute. repeat split; reflexivity. Qed.
+
+(* ====================================================================== reader *)
 
 (* reads_in_bounds: an accepted read never touches memory outside the buffer,
    for every requested size (up to 2^64-1) and every cursor *)
@@ -10,6 +92,40 @@ Theorem reads_in_bounds : forall r mem size,
   0 <= size -> 0 <= r_cur r -> rd_read r mem size <> ROob.
 Proof. exact rd_read_no_oob. Qed.
 Print Assumptions reads_in_bounds.
+
+Theorem read_throws_iff : forall r mem size,
+  0 <= size -> 0 <= r_cur r <= len (r_buf r) ->
+  (rd_read r mem size = RThrow <-> r_cur r + size > len (r_buf r)).
+Proof. exact rd_read_throws_iff. Qed.
+Print Assumptions read_throws_iff.
+
+(* view_in_bounds: the extent of a view that getView hands out lies inside the buffer *)
+Theorem view_in_bounds : forall r count off sz r',
+  0 <= count < 2 ^ 64 -> 0 <= r_cur r -> len (r_buf r) < 2 ^ 64 ->
+  rd_view r count = ROk (off, sz) r' ->
+  0 <= off /\ 0 <= sz /\ off + sz <= len (r_buf r) /\ sz = count /\
+  r_cur r' = r_cur r + count /\ r_buf r' = r_buf r.
+Proof. exact rd_view_in_bounds. Qed.
+Print Assumptions view_in_bounds.
+
+Theorem view_throws_iff : forall r count,
+  0 <= count < 2 ^ 64 -> 0 <= r_cur r <= len (r_buf r) ->
+  (rd_view r count = RThrow <-> r_cur r + count > len (r_buf r)).
+Proof. exact rd_view_throws_iff. Qed.
+Print Assumptions view_throws_iff.
+
+(* the check of /repo before the repair (cursor + size > size(), computed in size_t) let a
+   request of 2^64-4 bytes at cursor 8 through *)
+Theorem reader_wrap_old_refuted :
+  exists r size,
+    0 <= size < 2 ^ 64 /\ 0 <= r_cur r <= len (r_buf r) /\ r_cur r + size > len (r_buf r) /\
+    rd_read_old r true size = ROob /\ rd_read r true size = RThrow /\
+    (exists off sz r', rd_view_old r size = ROk (off, sz) r' /\ off + sz > len (r_buf r)) /\
+    rd_view r size = RThrow.
+Proof. exact ProofsFixed.reader_wrap_old_refuted. Qed.
+Print Assumptions reader_wrap_old_refuted.
+
+(* ============================================================ FixedBufferWriter *)
 
 (* fixed_accept_iff_fits: write/reserve succeed exactly when size <= cap - cursor;
    a rejected call throws and changes nothing; an accepted one advances the cursor
@@ -23,3 +139,48 @@ Theorem fixed_accept_iff_fits : forall w o,
                    out = match o with FWrite _ _ => FOk | FReserve _ _ => FPtr (f_cur w) end).
 Proof. exact fbw_step_spec. Qed.
 Print Assumptions fixed_accept_iff_fits.
+
+(* one step of the invariant: the buffer is the log of accepted data followed by the
+   untouched rest of the initial storage; an accepted call appends its data to the log, a
+   rejected one changes nothing *)
+Theorem fixed_step_log : forall init w log o,
+  view_ok init w log -> fop_ok o ->
+  let (w', out) := fbw_step w o in
+  view_ok init w' (if accepted_b out then log ++ fop_data w o else log) /\
+  (accepted_b out = true <-> fop_size o <= f_cap w - f_cur w) /\
+  (accepted_b out = false -> out = FThrow /\ w' = w).
+Proof. exact ProofsFixed.fbw_step_log. Qed.
+Print Assumptions fixed_step_log.
+
+(* fixed_view_exact: after EVERY history of write/reserve calls on FixedBufferWriter(cap):
+   capacity() = cap, available() = cap - cursor, getWrittenView() = the first cursor bytes =
+   the data of the accepted calls in order, and the bytes behind the cursor are untouched *)
+Theorem fixed_view_exact : forall cap bg ops,
+  0 <= cap < 2 ^ 64 -> Forall fop_ok ops ->
+  let w := fbw_run (fbw_init cap bg) ops in
+  let log := snd (fbw_trace (fbw_init cap bg) [] ops) in
+  fbw_capacity w = cap /\ fbw_available w = cap - len log /\ f_cur w = len log /\
+  fbw_view w = Some log /\
+  f_bytes w = log ++ repeat bg (Z.to_nat (cap - len log)).
+Proof. exact ProofsFixed.fixed_view_exact. Qed.
+Print Assumptions fixed_view_exact.
+
+(* the check of /repo before the repair (cursor + size >= size()) rejected an exact fit *)
+Theorem fixed_exact_fit_old_refuted :
+  exists w o,
+    fbw_inv w /\ fop_ok o /\ fop_size o <= f_cap w - f_cur w /\
+    fbw_step_old w o = (w, FThrow) /\ snd (fbw_step w o) = FOk.
+Proof. exact ProofsFixed.fixed_exact_fit_old_refuted. Qed.
+Print Assumptions fixed_exact_fit_old_refuted.
+
+(* capacity 4: write 3 bytes, a 2-byte write is rejected, reserve 1 (exact fit), then full *)
+Example fixed_history_example :
+  let ops := [FWrite (Some [1; 2; 3]%N) 3; FWrite (Some [4; 5]%N) 2; FReserve 1 (Some [6]%N); FWrite None 1] in
+  Forall fop_ok ops /\
+  fbw_trace (fbw_init 4 238%N) [] ops = ({| f_bytes := [1; 2; 3; 6]%N; f_cur := 4 |}, [1; 2; 3; 6]%N) /\
+  fbw_available (fbw_run (fbw_init 4 238%N) ops) = 0 /\
+  fbw_view (fbw_run (fbw_init 4 238%N) ops) = Some [1; 2; 3; 6]%N.
+Proof.
+  split; [repeat constructor; vm_compute; try discriminate; reflexivity|].
+  vm_compute. repeat split; reflexivity.
+Qed.
